@@ -50,8 +50,23 @@ fn multiaddr_consumer(address: &str) -> Option<SocketAddr> {
     format!("/{}/{}/tcp/{}", proto, sa.ip(), sa.port()).parse::<NetworkAddress>().ok().map(|n| n.socket_addr())
 }
 
-struct Ck<'a> { sum: &'a mut Summary, id: u64, tags: Vec<&'static str> }
+struct Ck<'a> { sum: &'a mut Summary, id: u64, tags: Vec<&'static str>, v6_known: u64 }
 impl<'a> Ck<'a> {
+    /// The IPv6 side of four-word-networking (6/9/12 words) is an oracle of the model; its failures to
+    /// round-trip are the known class `ipv6-word-codec-lossy` (external crate).  Shapes are counted.
+    fn v6_codec(&mut self, sa: SocketAddr, got: Option<SocketAddr>, via: &str, words: &str) {
+        let shape = match got {
+            None => "decode-error",
+            Some(g) if g.ip() == sa.ip() && g.port() == 65535 => "port-lost(65535)",
+            Some(g) if g.ip() == sa.ip() => "port-changed",
+            Some(g) if g.port() == sa.port() => "address-bits-lost",
+            Some(_) => "address-and-port-changed",
+        };
+        self.sum.count(&format!("v6-codec:{}", shape));
+        self.sum.violation(self.id, "IPv6 four-word round trip (four-word-networking 6/9/12-word codec) does not give the address back",
+            &["ipv6-word-codec-lossy"], json!({"addr": sa.to_string(), "via": via, "got": format!("{:?}", got), "shape": shape, "words": words}));
+        self.v6_known += 1;
+    }
     fn fail(&mut self, what: &str, detail: serde_json::Value) {
         let tags = self.tags.clone();
         self.sum.violation(self.id, what, &tags, detail);
@@ -73,7 +88,9 @@ fn observe_addr(sa: SocketAddr, light: bool, ck: &mut Ck) -> Option<AddrObs> {
             Err(()) => { ck.fail("from_four_words panicked on the library's own words", json!({"addr": txt, "words": w})); Res::None }
             Ok(r) => {
                 let got = r.as_ref().ok().map(|n| n.socket_addr());
-                if got != Some(sa) {
+                if got != Some(sa) && sa.is_ipv6() {
+                    ck.v6_codec(sa, got, "from_four_words", w);
+                } else if got != Some(sa) {
                     ck.fail("four-word round trip: from_four_words(words the library produced) is not the same address",
                         json!({"addr": txt, "words": w, "got": format!("{:?}", r.as_ref().map(|n| n.socket_addr()).map_err(|e| e.to_string()))}));
                 }
@@ -113,7 +130,8 @@ fn observe_addr(sa: SocketAddr, light: bool, ck: &mut Ck) -> Option<AddrObs> {
     let boot = match guard(|| { let e = BootEncoder::new(); let w = e.encode_socket_addr(&sa).map_err(|e| e.to_string())?; e.decode_to_socket_addr(&w).map_err(|e| format!("{} <- {}", e, w.0)) }) {
         Err(()) => { ck.fail("bootstrap::WordEncoder panicked", json!({"addr": txt})); Res::None }
         Ok(r) => {
-            if r.as_ref().ok() != Some(&sa) { ck.fail("bootstrap::WordEncoder: decode_to_socket_addr(encode_socket_addr(addr)) is not the same address", json!({"addr": txt, "got": format!("{:?}", r)})); }
+            if r.as_ref().ok() != Some(&sa) && sa.is_ipv6() { ck.v6_codec(sa, r.as_ref().ok().copied(), "bootstrap::WordEncoder", ""); }
+            else if r.as_ref().ok() != Some(&sa) { ck.fail("bootstrap::WordEncoder: decode_to_socket_addr(encode_socket_addr(addr)) is not the same address", json!({"addr": txt, "got": format!("{:?}", r)})); }
             Res::of(r.ok())
         }
     };
@@ -389,7 +407,7 @@ fn main() {
         };
         let to_model = if kind == "boundary" { i % stride_b == 0 || (sa.port() == 65535 && i % 97 == 0) } else { (i - addrs.len() as u64) % stride_r == 0 };
         let light = kind == "sampled" && !to_model && i % 16 != 0;
-        let mut ck = Ck { sum: &mut sum, id, tags: vec![] };
+        let mut ck = Ck { sum: &mut sum, id, tags: vec![], v6_known: 0 };
         let obs = observe_addr(sa, light, &mut ck);
         sum.count(&format!("addr:{}", kind));
         if sa.port() == 65535 { sum.count("addr:port65535"); }
@@ -427,15 +445,24 @@ fn main() {
 
     // ---- 3. IPv6 (oracle: Rust-side round trips only)
     let n6 = if thorough { 20_000 } else { 1_500 };
+    let mut v6_known_total = 0u64;
     for (a6, class) in v6_samples(&mut rng, n6) {
         let sa = SocketAddr::V6(a6);
-        let mut ck = Ck { sum: &mut sum, id, tags: vec![] };
+        let mut ck = Ck { sum: &mut sum, id, tags: vec![], v6_known: 0 };
         let before = ck.sum.direct_violations.len();
         let _ = observe_addr(sa, false, &mut ck);
+        let known = ck.v6_known;
+        v6_known_total += known;
         sum.count(&format!("v6:{}", class));
-        if sum.direct_violations.len() > before { sum.case(id, json!({"kind": "address6", "class": class, "addr": sa.to_string()})); id += 1; }
+        let newv = (sum.direct_violations.len() - before) as u64;
+        if newv > 0 {
+            let tags: Vec<&str> = if newv == known { vec!["ipv6-word-codec-lossy"] } else { vec![] };
+            sum.case(id, json!({"kind": "address6", "class": class, "addr": sa.to_string(), "tags": tags})); id += 1;
+        }
         sum.evaluations += 1;
-        if sum.direct_violations.len() > 80 { break; }
+        // keep the summary small: known-class hits beyond 200 are only counted
+        if v6_known_total > 200 && newv == known { let l = sum.direct_violations.len(); sum.direct_violations.truncate(l - newv as usize); }
+        if sum.direct_violations.len() as u64 > v6_known_total.min(200) + 80 { break; }
     }
     // scoped / bracketed textual variants go through FromStr and the consumers only
     for s in ["[fe80::1%5]:9000", "[::1]:9000", "[::ffff:10.0.0.1]:9000", "[2001:db8::1]:65535"] {
